@@ -104,6 +104,7 @@ func (q *workQueue) stop() {
 func runPath(ex *Exec, fn *ssa.Function, item workItem) (rec PathRec) {
 	ex.resetPath(item)
 	defer func() {
+		ex.schedCleanup()
 		rec.Decisions = append([]int64{}, ex.decisions...)
 		rec.Steps = ex.steps
 		rec.Notes = ex.notes
